@@ -107,7 +107,15 @@ def run_one(item):
                 fired.append(pid)
             elif r.returncode != 0:
                 errors.append(pid)
-        return dict(file=f, k=k, kind=kind, line=line, before=before, after=after, fired=fired, errors=errors)
+        suite = None
+        if not fired and not errors and os.environ.get("MT_SUITE"):
+            # a mutant no check reports: does the pinned suite notice it?  (suite passes + checks silent = candidate escape, to be read by hand)
+            full = tmp / "full"
+            subprocess.run(["rsync", "-a", "--exclude", ".git", "--exclude", "__pycache__", str(BASE) + "/", str(full) + "/"], check=True)
+            (full / "pfhedge" / f).write_text(new_src)
+            rs = subprocess.run(["/venv/bin/python", STAGE + "/tools/baseline.py", str(full), "-n", os.environ.get("MT_SUITE_JOBS", "4")], capture_output=True, text=True, timeout=3600)
+            suite = "pass" if rs.returncode == 0 else "fail: " + " ".join(l.split("::")[-1] for l in rs.stdout.splitlines()[1:4])
+        return dict(file=f, k=k, kind=kind, line=line, before=before, after=after, fired=fired, errors=errors, suite=suite)
     finally:
         shutil.rmtree(tmp, ignore_errors=True)
 
@@ -118,7 +126,8 @@ if __name__ == "__main__":
     with cf.ThreadPoolExecutor(max_workers=8) as ex:
         for r in ex.map(run_one, items):
             res.append(r)
-            tag = "FIRE " + ",".join(r["fired"]) if r["fired"] else ("ERR " + ",".join(r["errors"]) if r["errors"] else "silent")
+            tag = "FIRE " + ",".join(r["fired"]) if r["fired"] else ("ERR " + ",".join(r["errors"]) if r["errors"] else "silent" + (f" (suite {r['suite']})" if r.get("suite") else ""))
             print(f"{r['file']}:{r['line']} [{r['kind']}] {r['before'][:60]!r} -> {r['after'][:60]!r} :: {tag}", flush=True)
     json.dump(res, open(os.path.join(os.environ.get("PFSA_SAMPLE_OUT", "/var/tmp"), f"pfsa_sample_{seed}.json"), "w"), indent=1)
+    print("silent and suite passes (candidate escapes):", sum(1 for r in res if r.get("suite") == "pass"))
     print("fired", sum(1 for r in res if r["fired"]), "errors-only", sum(1 for r in res if not r["fired"] and r["errors"]), "silent", sum(1 for r in res if not r["fired"] and not r["errors"]))
